@@ -46,13 +46,33 @@ func (e *Engine) blocked(st *State, what string, ins ssa.Instruction) int {
 			st.path = append(st.path, "wait:"+what)
 			return stCont
 		}
-		if !p.done[other] && p.waiting[other] {
-			o := e.obl("deadlock@"+siteFn(ins), "hang")
-			o.Checked++
-			e.reportViolation(st, o, tTrue, e.modelOf(st), site(ins), "both goroutines wait for each other: "+what)
-			st.finished = true
-			return stDone
+	}
+	if len(st.pendingGo) > 0 {
+		// goroutines spawned earlier have not run yet: run the oldest one now (one admissible
+		// schedule); afterwards the blocking instruction re-executes
+		g := st.pendingGo[0]
+		st.pendingGo = st.pendingGo[1:]
+		if g.fn.fn.Blocks != nil {
+			nf := e.newFrame(g.fn.fn, g.args, g.fn.bind)
+			nf.goFrame = true
+			st.frames = append(st.frames, nf)
+			st.goDepth++
+			st.path = append(st.path, "run-goroutine:"+g.fn.fn.Name())
+			return stCont
 		}
+	}
+	if p := st.par; p != nil && !p.done[1-p.cur] && p.waiting[1-p.cur] && st.goDepth == 0 {
+		o := e.obl("deadlock@"+siteFn(ins), "hang")
+		o.Checked++
+		e.reportViolation(st, o, tTrue, e.modelOf(st), site(ins), "both goroutines wait for each other: "+what)
+		st.finished = true
+		return stDone
+	}
+	if st.goDepth > 0 {
+		// a goroutine run on behalf of a waiting spawner waits itself: this schedule is not pursued
+		e.res.Cuts["goroutine-waits:"+what+"@"+siteFn(ins)]++
+		st.finished = true
+		return stDone
 	}
 	if held := e.heldLocks(st); len(held) > 0 {
 		o := e.obl("blocked-holding-lock@"+siteFn(ins), "lock")
